@@ -212,6 +212,10 @@ type fwCase struct {
 	NSubs   int         `json:"nsubs"`
 	Pubs    [][]int     `json:"pubs"`    // per publisher: sizes of pipelined PUBLISH batches
 	Writers [][]fwBurst `json:"writers"` // per writer connection
+	// Phased: writers run first, the follower catches up, then the publishers
+	// run — log data and forwarded PUBLISH frames never share the link at the
+	// same time (the shape generated while findingForwardTear is excluded)
+	Phased bool `json:"phased,omitempty"`
 }
 
 func drawFWCase(rt *rapid.T, gentle bool) fwCase {
@@ -241,17 +245,16 @@ func drawFWCase(rt *rapid.T, gentle bool) fwCase {
 			if rapid.Bool().Draw(rt, "string") {
 				b.Size = rapid.SampledFrom([]int{10, 500, 5000, 20000, 60000}).Draw(rt, "size")
 			}
-			if gentle {
-				// known finding excluded by construction: never more than one
-				// small command of log outstanding
-				b.Pipe = false
-				if b.Size > 2000 {
-					b.Size = 500
-				}
-			}
 			bs = append(bs, b)
 		}
 		p.Writers = append(p.Writers, bs)
+	}
+	if gentle {
+		// known finding excluded by construction: no notification is forwarded
+		// while log data is in flight (the leader does not wait for followers,
+		// so even awaited small writes pile up behind a PUBLISH storm)
+		p.Phased = true
+		p.Fence = nil
 	}
 	return p
 }
@@ -447,72 +450,89 @@ func runFollowerCase(e *fwEnv, p fwCase) *outcome {
 	var wg sync.WaitGroup
 	errs := make(chan string, 16)
 	sent := make([][]string, len(p.Pubs)) // per publisher: payloads in send order
-	for pi, batches := range p.Pubs {
-		wg.Add(1)
-		c := dial(e.leader)
-		go func(pi int, batches []int) {
-			defer wg.Done()
-			k := 0
-			for _, bn := range batches {
-				for i := 0; i < bn; i++ {
-					payload := fmt.Sprintf("m|%d|%d", pi, k)
-					k++
-					sent[pi] = append(sent[pi], payload)
-					if err := c.Send("PUBLISH", ch, payload); err != nil {
-						errs <- err.Error()
-						return
-					}
-				}
-				for i := 0; i < bn; i++ {
-					if v, err := c.Recv(); err != nil || v.Kind != ':' {
-						errs <- fmt.Sprintf("PUBLISH reply: %v %v", v, err)
-						return
-					}
-				}
-			}
-		}(pi, batches)
-	}
-	for wi, bursts := range p.Writers {
-		wg.Add(1)
-		c := dial(e.leader)
-		go func(wi int, bursts []fwBurst) {
-			defer wg.Done()
-			seq := (wi + 1) * 100000
-			for _, b := range bursts {
-				var cmds [][]string
-				for i := 0; i < b.N; i++ {
-					seq++
-					if b.Size == 0 {
-						cmds = append(cmds, []string{"SET", key, fmt.Sprintf("o%d", i%3), "POINT", fmt.Sprintf("%.6f", float64(seq)*1e-6), strconv.Itoa(seq % 8)})
-					} else {
-						cmds = append(cmds, []string{"SET", key, fmt.Sprintf("s%d", i%4), "STRING", strings.Repeat(string(rune('a'+seq%26)), b.Size)})
-					}
-				}
-				if b.Pipe {
-					for _, cmd := range cmds {
-						if err := c.Send(cmd...); err != nil {
+	startPubs := func() {
+		for pi, batches := range p.Pubs {
+			wg.Add(1)
+			c := dial(e.leader)
+			go func(pi int, batches []int) {
+				defer wg.Done()
+				k := 0
+				for _, bn := range batches {
+					for i := 0; i < bn; i++ {
+						payload := fmt.Sprintf("m|%d|%d", pi, k)
+						k++
+						sent[pi] = append(sent[pi], payload)
+						if err := c.Send("PUBLISH", ch, payload); err != nil {
 							errs <- err.Error()
 							return
 						}
 					}
-					for range cmds {
-						if v, err := c.Recv(); err != nil || v.IsErr() {
-							errs <- fmt.Sprintf("SET reply: %v %v", v, err)
-							return
-						}
-					}
-				} else {
-					for _, cmd := range cmds {
-						if v, err := c.Do(cmd...); err != nil || v.IsErr() {
-							errs <- fmt.Sprintf("SET reply: %v %v", v, err)
+					for i := 0; i < bn; i++ {
+						if v, err := c.Recv(); err != nil || v.Kind != ':' {
+							errs <- fmt.Sprintf("PUBLISH reply: %v %v", v, err)
 							return
 						}
 					}
 				}
-			}
-		}(wi, bursts)
+			}(pi, batches)
+		}
 	}
-	wg.Wait()
+	startWriters := func() {
+		for wi, bursts := range p.Writers {
+			wg.Add(1)
+			c := dial(e.leader)
+			go func(wi int, bursts []fwBurst) {
+				defer wg.Done()
+				seq := (wi + 1) * 100000
+				for _, b := range bursts {
+					var cmds [][]string
+					for i := 0; i < b.N; i++ {
+						seq++
+						if b.Size == 0 {
+							cmds = append(cmds, []string{"SET", key, fmt.Sprintf("o%d", i%3), "POINT", fmt.Sprintf("%.6f", float64(seq)*1e-6), strconv.Itoa(seq % 8)})
+						} else {
+							cmds = append(cmds, []string{"SET", key, fmt.Sprintf("s%d", i%4), "STRING", strings.Repeat(string(rune('a'+seq%26)), b.Size)})
+						}
+					}
+					if b.Pipe {
+						for _, cmd := range cmds {
+							if err := c.Send(cmd...); err != nil {
+								errs <- err.Error()
+								return
+							}
+						}
+						for range cmds {
+							if v, err := c.Recv(); err != nil || v.IsErr() {
+								errs <- fmt.Sprintf("SET reply: %v %v", v, err)
+								return
+							}
+						}
+					} else {
+						for _, cmd := range cmds {
+							if v, err := c.Do(cmd...); err != nil || v.IsErr() {
+								errs <- fmt.Sprintf("SET reply: %v %v", v, err)
+								return
+							}
+						}
+					}
+				}
+			}(wi, bursts)
+		}
+	}
+	if p.Phased {
+		startWriters()
+		wg.Wait()
+		if !e.waitCaughtUp(20 * time.Second) {
+			o.inconclusive = "follower did not catch up with the writers' log within 20 s"
+			return o
+		}
+		startPubs()
+		wg.Wait()
+	} else {
+		startPubs()
+		startWriters()
+		wg.Wait()
+	}
 	select {
 	case msg := <-errs:
 		o.fail("command-failed", "leader traffic: %s", msg)
@@ -662,23 +682,10 @@ func runFollowerCase(e *fwEnv, p fwCase) *outcome {
 	if p.Fence != nil {
 		o.label("forwarded-fence-notifications")
 	}
-	if storm && (big || piped || gentleCase(p)) {
+	if storm && (big || piped || p.Phased) {
 		o.ntKey = jsonStr(p)
 	}
 	return o
-}
-
-// gentleCase reports whether p has the shape generated while the known
-// finding is excluded (awaited small writes only).
-func gentleCase(p fwCase) bool {
-	for _, w := range p.Writers {
-		for _, b := range w {
-			if b.Pipe || b.Size > 2000 {
-				return false
-			}
-		}
-	}
-	return true
 }
 
 type fwReplay struct {
@@ -695,7 +702,7 @@ func heavyFWCase() fwCase {
 func TestC10_FollowerForward(t *testing.T) {
 	c := ev.New("C10", "follower", "exploration")
 	t.Cleanup(c.Flush)
-	c.Rule("a leader and a caught-up follower (both in-process, the follower attached through a capturing TCP proxy); 1-2 subscribers on the follower (SUBSCRIBE / PSUBSCRIBE) and a reference subscriber on the leader, all acknowledged before any traffic; on the leader 1-2 publishers send pipelined PUBLISH batches of 1-600 while 1-2 writers send bursts of 1-40 POINT writes (fence-triggering when a SETCHAN fence exists) or STRING values of 10 B-60 KB, mostly pipelined. Oracle: (1) at quiescence every byte the leader sent on every follower connection parses as whole RESP values (the replication stream is never torn by forwarded PUBLISH frames), (2) the follower returns to caught_up, (3) every subscriber received every PUBLISH exactly once in per-publisher order before the sentinel. Non-trivial: a pipelined batch of at least 40 PUBLISHes runs while a writer logs a command or pipelined burst larger than the 8 KB chunk the log tail is streamed in (while that shape is excluded as a known finding: while a writer logs awaited small commands); distinct by generated case.")
+	c.Rule("a leader and a caught-up follower (both in-process, the follower attached through a capturing TCP proxy); 1-2 subscribers on the follower (SUBSCRIBE / PSUBSCRIBE) and a reference subscriber on the leader, all acknowledged before any traffic; on the leader 1-2 publishers send pipelined PUBLISH batches of 1-600 while 1-2 writers send bursts of 1-40 POINT writes (fence-triggering when a SETCHAN fence exists) or STRING values of 10 B-60 KB, mostly pipelined. Oracle: (1) at quiescence every byte the leader sent on every follower connection parses as whole RESP values (the replication stream is never torn by forwarded PUBLISH frames), (2) the follower returns to caught_up, (3) every subscriber received every PUBLISH exactly once in per-publisher order before the sentinel. Non-trivial: a pipelined batch of at least 40 PUBLISHes runs while a writer logs a command or pipelined burst larger than the 8 KB chunk the log tail is streamed in (while that shape is excluded as a known finding: a batch of at least 40 PUBLISHes is forwarded over a link that just carried the writers' log); distinct by generated case.")
 	c.Assume("forwarding to followers is best effort while the replication link is down; the check only demands delivery while the link is up, which it always is unless the server itself drops it")
 	env, err := startFW()
 	if err != nil {
